@@ -390,12 +390,21 @@ def r3_r4_repetition(ctx):
     except Unfoldable:
         ctx.lost("C10.R4", "repetition threshold is not a constant")
         return
-    least = v if op == "Ge" else v + 1 if op == "Gt" else None
+    # which edge is taken for many repetitions, and from which count on (whatever way round the test is written)
+    cmpf = {"Ge": lambda n: n >= v, "Gt": lambda n: n > v, "Le": lambda n: n <= v, "Lt": lambda n: n < v, "Eq": lambda n: n == v, "Ne": lambda n: n != v}.get(op)
+    if cmpf is None:
+        ctx.lost("C10.R4", "comparison operator %s of the repetition count" % op)
+        return
+    many = cmpf(1000)
+    same = [n for n in range(0, 12) if cmpf(n) == many]
+    least = same[0] if same == list(range(same[0], 12)) else None
     ok = least == 3
-    ctx.ob("C10.R4", "negamax|repetition-threshold", ok, "" if ok else "repetitions are compared with `%s %d`: a draw is assumed from %s occurrences, the rule says 3" % (op, v, least),
-           ctx.where(f, t["line"]), sample={"op": op, "constant": v})
-    # region of the true arm
-    arm = t["otherwise"] if t["targets"] and t["targets"][0][0] == 0 else None
+    ctx.ob("C10.R4", "negamax|repetition-threshold", ok, "" if ok else "repetitions are compared with `%s %d`: a draw is assumed from %s occurrences, the rule says 3" % (op, v, least if least is not None else "a non-contiguous set of"),
+           ctx.where(f, t["line"]), sample={"op": op, "constant": v, "draw_from": least})
+    # region of the arm taken for three or more repetitions
+    true_edge = t["otherwise"] if t["targets"] and t["targets"][0][0] == 0 else None
+    false_edge = t["targets"][0][1] if t["targets"] and t["targets"][0][0] == 0 else None
+    arm = true_edge if many else false_edge
     if arm is None:
         ctx.lost("C10.R3", "true arm of the repetition test")
         return
